@@ -32,7 +32,7 @@ from . import prov as P
 from . import panic as PN
 
 
-def operator_receives_operand_list(ctx, facts, roles, t, cfg, K):
+def operator_receives_operand_list(ctx, facts, roles, t, cfg, K, result_clause=True):
     """The operation evaluator of table `t` runs its operator at exactly one site, on the operand list itself
     (shared by C04 K3, C03 K7 and C16 K3: {op: x} means {op: [x]} also at evaluation time)."""
     ev = facts.body(t.operation_impl[1])
@@ -66,7 +66,8 @@ def operator_receives_operand_list(ctx, facts, roles, t, cfg, K):
                 good += 1
                 continue
         bad.append(show_expr(c)[:100])
-    ctx.check(good >= 1 and not bad, K + ".result", "%s operation returns the operator's result as a new value, and nothing else (%s)" % (t.role, cfg),
+    if result_clause:
+      ctx.check(good >= 1 and not bad, K + ".result", "%s operation returns the operator's result as a new value, and nothing else (%s)" % (t.role, cfg),
               "the operation evaluator can also return %s (expected only execute(..) wrapped as a new value, or its error)" % (bad or show_expr(r)[:120]), where=ev.where(), fn=ev.key, nontrivial=True)
     execs = []
     for b in unit:
